@@ -37,6 +37,29 @@ def gen_cases_for(tier_, seed_):
                       "opts": {"framework": "dataclasses", "flat": True, "merge": r.choice([[["percent", 0.7], ["number", 10]], [["exact"]], [["number", 1]]]),
                                "max_literals": 10, "convert_unicode": True, "registry": FULL if r.random() < 0.7 else FULL[:3],
                                "dkf": ["f"] if r.random() < 0.15 else [], "dkr": [], "post_init_converters": False, "meta": False}})
+    # the literal limit crossed by the last literal member, next to a pseudo-typed string and without any long plain string
+    for n in range(300 if tier_ == "quick" else 3000):
+        r = rng_for(PROP, "cross", seed_, n)
+        k = r.choice([14, 15, 15, 16, 16, 17, 18])
+        vals = [f"w{j}" for j in range(k)]
+        pseudo = r.choice(["1", "2.5", "true", "2018-01-02", "10:30:00"])
+        form = r.choice(["scalar", "list", "list_then_one", "two_lists"])
+        if form == "scalar":
+            seq = vals + [pseudo]
+            r.shuffle(seq)
+            if r.random() < 0.5:
+                seq = [x for x in seq if x != vals[-1]] + [vals[-1]]
+            samples = [{"f": x, "g": 0} for x in seq]
+        elif form == "list":
+            samples = [{"f": vals[:k // 2] + [pseudo], "g": 0}, {"f": vals[k // 2:], "g": 0}]
+        elif form == "list_then_one":
+            samples = [{"f": vals[:-1], "g": 0}, {"f": [pseudo], "g": 0}, {"f": [vals[-1]], "g": 0}]
+        else:
+            samples = [{"f": vals[:15] + [pseudo], "g": 0}, {"f": vals[10:], "g": 0}]
+        cases.append({"kind": "universe", "ms": [0, 1], "cross": True, "models": [["Root", samples]],
+                      "opts": {"framework": "dataclasses", "flat": True, "merge": [["percent", 0.7], ["number", 10]], "max_literals": 17,
+                               "convert_unicode": True, "registry": FULL if r.random() < 0.6 else FULL[:3], "dkf": [], "dkr": [],
+                               "post_init_converters": False, "meta": False}})
     nrand = 2500 if tier_ == "quick" else 80000
     for i in range(nrand):
         r = rng_for(PROP, "rnd", seed_, i)
